@@ -41,6 +41,8 @@ func c09(r *Report) {
 		Alt: []Check{CmpCheck("currentDIDDocument == nil is false (found by a referenced transaction)", token.EQL, TypeNamedV("Document"), NilV(), false)}})
 	c09KeyListFromControllers(r, up)
 	c09ControllersFromResolver(r)
+	r.ArgIs("C09.update.controllers-of-current-version", up, Fn(dn, "ambassador", "resolveControllers"), 0, OriginV(CallV(p.FnOrImpl("vdr/didnuts/didstore", "Store", "Resolve"), 0)), 1)
+	c09SeenSetKey(r, p.Func(dn, "", "verifyDocumentEntryID"))
 	c09KeyResolvedAsOfPrevs(r, up)
 	// findKeyByThumbprint returns a key only on byte equality
 	fk := p.Func(dn, "ambassador", "findKeyByThumbprint")
@@ -362,4 +364,41 @@ func baseFrom(v ssa.Value, sub string) bool {
 		}
 	}
 	return false
+}
+
+// c09SeenSetKey: the id recorded in the seen-set is the very value that was looked up (recording a different rendering
+// of the id — e.g. after the fragment was cleared — makes the duplicate test vacuous).
+func c09SeenSetKey(r *Report, fn *ssa.Function) {
+	rule := "ARG: verifyDocumentEntryID records in knownIDs exactly the key it looked up"
+	key := "C09.entry.unique.same-key"
+	if fn == nil {
+		r.Lost(key, rule, "verifyDocumentEntryID not found")
+		return
+	}
+	var lk *ssa.Lookup
+	var mu *ssa.MapUpdate
+	for _, b := range fn.Blocks {
+		for _, in := range b.Instrs {
+			switch x := in.(type) {
+			case *ssa.Lookup:
+				if ParamV("knownIDs").M(x.X) {
+					lk = x
+				}
+			case *ssa.MapUpdate:
+				if ParamV("knownIDs").M(x.Map) {
+					mu = x
+				}
+			}
+		}
+	}
+	r.Sites += 2
+	if lk == nil || mu == nil {
+		r.Lost(key, rule, "lookup / update of knownIDs not found")
+		return
+	}
+	if lk.Index != mu.Key {
+		r.Bad(key, rule, r.P.Pos(mu.Pos()), "looked up "+AccessPath(lk.Index, 0)+" but recorded "+AccessPath(mu.Key, 0))
+		return
+	}
+	r.OK(key, rule, r.P.Pos(mu.Pos()), "same SSA value", true)
 }
